@@ -235,6 +235,7 @@ def stream_checkskipped(stream, offset, path):
         raise StreamError("stream.seek() or tell() failed", path=path)
     if offset > end:
         raise StreamError("stream is shorter than the skipped fields, expected %d, found %d" % (offset, end), path=path)
+    return end
 
 
 def stream_iseof(stream):
@@ -6182,6 +6183,7 @@ class LazyArray(Subconstruct):
         offset = stream_tell(stream, path)
         offsets = {0: offset}
         values = {}
+        end = stream_checkskipped(stream, offset, path)
         for i in range(count):
             try:
                 offset += sc._actualsize(stream, context, path)
@@ -6192,7 +6194,9 @@ class LazyArray(Subconstruct):
                 values[i] = parseret
                 offset = stream_tell(stream, path)
             offsets[i+1] = offset
-        stream_checkskipped(stream, offset, path)
+            if offset > end:
+                # checked per element: a huge count must not skip its way far beyond the end of the data
+                stream_checkskipped(stream, offset, path)
         return LazyListContainer(sc, stream, count, offsets, values, context, path)
 
     def _build(self, obj, stream, context, path):
